@@ -189,6 +189,14 @@ def check_generate(case, ctx):
     full = [kv[0]] + inner + [kv[-1]]
     steps = [b - a for a, b in zip(full, full[1:])]
     ctx.check(max(steps) - min(steps) <= 1e-12, "generate-equal-spacing", "interior knots are not equally spaced: %r" % kv)
+    # every call generates the vector: what the caller did with an earlier result (scaled it, inserted a knot) does not matter
+    keep = list(kv)
+    kv[len(kv) // 2] = kv[len(kv) // 2] * 0.5 + 3.0
+    kv.append(9.0)
+    again = knotvector.generate(p, n, clamped=clamped)
+    ctx.check(list(again) == keep, "generate-depends-on-earlier-result",
+              "generate(%d, %d, clamped=%r) called again after the caller edited the first result returns %r, first time %r" % (p, n, clamped, again, keep))
+    kv = keep
     # usable by a curve
     c = BSpline.Curve()
     c.degree = p
